@@ -54,7 +54,7 @@ def main(tier, seed):
     progs = []
     nmax = 12 if tier == "quick" else 50
     # single fault at every conversion position x every code x both buffer modes, runs of n validations (mode 6531)
-    runs = [nmax] if tier == "quick" else [1, 2, 5, 12, 50]
+    runs = [1, 2, 5, 12] if tier == "quick" else [1, 2, 3, 5, 8, 12, 20, 50]
     for n in runs:
         for tld in ("t0", "t1"):
             base = [rng.randrange(len(POOL)) for _ in range(n)]
@@ -63,7 +63,7 @@ def main(tier, seed):
                     for buf in (0, 1):
                         progs.append(["r3", "s", tld, "F%d:%d:%d" % (k, code, buf)] + ["e%d" % i for i in base] + ["m"])
     # random multi-fault sequences with interleaved mode switches
-    for _ in range(1000 if tier == "quick" else 100000):
+    for _ in range(4000 if tier == "quick" else 200000):
         p = ["r3", "s"]
         for _ in range(rng.randrange(3, 30)):
             r = rng.random()
